@@ -29,9 +29,9 @@ FORBIDDEN = re.compile(r'\b(Admitted|admit|Axiom|Parameter|Conjecture|Unset Guar
                        r'Admit Obligations|type-in-type|impredicative-set)\b')
 
 class Lock:
-    def __init__(self, name):
-        os.makedirs(BUILD, exist_ok=True)
-        self.path = os.path.join(BUILD, name + '.lock')
+    def __init__(self, name, where=None):
+        os.makedirs(where or BUILD, exist_ok=True)
+        self.path = os.path.join(where or BUILD, name + '.lock')
     def __enter__(self):
         self.f = open(self.path, 'w')
         fcntl.flock(self.f, fcntl.LOCK_EX)
@@ -47,7 +47,8 @@ def sh(cmd, cwd=None, timeout=1800, env=None):
 # ------------------------------------------------------------------------------- building
 def build_coq(target=None):
     """full .vo build through coq_makefile (never -vos); returns (ok, log)"""
-    with Lock('coq'):
+    # (the lock lives beside the sources: runs with different VERIF_BUILD directories share this one Coq tree)
+    with Lock('.coqbuild', COQ):
         if not os.path.exists(os.path.join(COQ, 'Makefile')) or \
            os.path.getmtime(os.path.join(COQ, 'Makefile')) < os.path.getmtime(os.path.join(COQ, '_CoqProject')):
             rc, out = sh(['coq_makefile', '-f', '_CoqProject', '-o', 'Makefile'], cwd=COQ)
